@@ -890,6 +890,9 @@ func (fe *FnEnc) alloc(x *ssa.Alloc) Val {
 		s.assert("(>= " + ref + " " + s.ghostGet(fe.top.entryMem, k, "Int") + ")")
 		fe.mem.ghost[k] = s.name("nx", "Int", "(+ "+ref+" 1)")
 		a := &Addr{Root: rootHeap, RootT: et, Ref: ref, Nil: "false"}
+		if fe.top == fe {
+			fe.top.freshObjs = append(fe.top.freshObjs, freshObj{x: x, ref: ref, et: et})
+		}
 		keys := s.store(fe.mem, a, s.zero(et))
 		fe.recordMod(append(keys, "ghost:"+k))
 		if gd := fe.g.guardFor(et); gd != nil {
